@@ -24,6 +24,17 @@ CLAIMED = {
     ),
 }
 
+CLAIMED["C07"] = (
+    XH + "; differential against plain Python evaluation (spec/selector_ref.py), programs enumerated from spec/grammar.py",
+    "For every program of the bounded grammar (all predicates with operands of depth <= 1 quick / <= 2 thorough, plus seeded and/or/not "
+    "combinations) and each engine, the real Selector / CompiledSelector is executed symbolically over all integers, all strings of <= 2 "
+    "characters, both booleans and an optional integer as field values and must agree with Python's evaluation of the same text; programs "
+    "using operators outside the engine's tables must be rejected. Programs are enumerated, values are decided by the solver.",
+    "Trusted: spec/selector_ref.py as the meaning of the helper functions; field values are injected after construction (checked: the coercing "
+    "types define no operators). Outside: floats/true division, case mapping, int->str (hunt-only), records with datetime/path/digest fields, deeper programs.",
+    "DESIGN.md 3 C07",
+)
+
 NOT_APPLICABLE = {
     "C13": "every operation the property constrains (datetime construction/arithmetic, fromisoformat, zoneinfo, fastavro/sqlite3 conversions) is C code; "
     "CrossHair realises each datetime component at the C constructor and the repo-side logic is two value-free ifs, so no value-level case would be decided by the solver (DESIGN.md 6)",
